@@ -17,7 +17,9 @@ CLAUSE_PROP = {c: "C08" for c in TOPO_CLAUSES}
 CLAUSE_PROP.update({"YGroupsStart": "C05"})
 CLAUSE_PREFIX = {"InverseOK": "C02", "Jacobian": "C02", "ClosedForm": "C02", "OrthogonalZero": "C02", "G23": "C02", "Displacement": "C02", "Dphidy": "C06",
                  "BrIs": "C03", "BzIs": "C03", "BpMagnitude": "C03", "BtotIs": "C03", "BtIs": "C03", "Pressure": "C03", "BpSignIs": "C03",
-                 "OneBpSign": "C03", "Scalar_": "C03"}
+                 "OneBpSign": "C03", "Scalar_": "C03",
+                 "Hy": "C05", "PD": "C05", "Total": "C05",
+                 "ZShift": "C06", "JumpIs": "C06", "ShiftAngle": "C06", "ShiftTorsion": "C06", "ChiDomain": "C06"}
 
 
 def clause_prop(c):
@@ -71,7 +73,7 @@ def project(dirs, pid, timeout=1800):
 def validate(traces, tag, nstates=5):
     """traces: list of dicts with unique 'id'. Returns {id: set((clause, loc))}, tlc results"""
     d = scratch("gv_" + tag)
-    nchunk = min(4, max(1, len(traces) // 3))
+    nchunk = min(8, max(1, len(traces) // 2))
     jobs = []
     for n in range(nchunk):
         ch = traces[n::nchunk]
@@ -82,12 +84,12 @@ def validate(traces, tag, nstates=5):
             json.dump({"traces": ch}, fh)
 
         def job(tf=tf, ch=ch):
-            return tlc.run_tlc("Trace_Grid", "Trace_Grid.cfg", workers=4, timeout=3000, env_extra={"TRACE_FILE": tf}, check=False, heap="6g"), ch
+            return tlc.run_tlc("Trace_Grid", "Trace_Grid.cfg", workers=1, timeout=3000, env_extra={"TRACE_FILE": tf}, check=False, heap="6g"), ch
 
         jobs.append(job)
     failed = {}
     results = []
-    for res, ch in parallel_jobs(jobs, nproc=4):
+    for res, ch in parallel_jobs(jobs, nproc=8):
         results.append(res)
         if not res.ok:
             raise MachineryError("Trace_Grid run failed (violated=%s):\n%s" % (res.violated, res.out[-3000:]))
